@@ -33,7 +33,7 @@ PKGS = {
     # crossed within seconds
     "writer-main-fastrotate": {"dir": "cmd/thermal-writer", "name": "main", "harness": "writer-main", "templates": ["kit"],
                                "src_patches": [{"file": "{REPO}/cmd/thermal-writer/main.go",
-                                                "edits": [("const newFileInterval = time.Minute", "const newFileInterval = 2 * time.Second")]}]},
+                                                "edits": [("re", r"\bnewFileInterval(\s*)=(\s*)time\.Minute\b", r"newFileInterval\1=\g<2>2 * time.Second")]}]},
     "writer-main": {"dir": "cmd/thermal-writer", "name": "main", "harness": "writer-main", "templates": ["kit"]},
 }
 
@@ -79,13 +79,13 @@ PROPS = {
     "C03": {
         "title": "Recording length: min-secs past the last motion, never more than max-secs",
         "level": "exploration",
-        "rule": FSM_RULE + " Oracle C03: a recording triggered at t ends exactly at the first frame e with e-t+1 >= max(1, min(L(e)-t+minF, maxF)), L = latest observed motion callback; cut exactly at a bad frame/reset. "
+        "rule": FSM_RULE + " Oracle C03: a recording triggered at t ends exactly at the first frame e with e-t+1 >= max(1, min(L(e)-t+minF, maxF)), L = latest observed motion callback; cut exactly at a bad frame/reset. A recording whose pre-trigger path met a storage write failure is judged from above only (it may be given up early, never run longer than the rule allows). "
                 "Non-trivial = at least one recording; distinct by (config, sink-trace hash).",
         "assumptions": FSM_ASSUME,
         "level_text": "Declarative end-of-recording formula evaluated against the observed MotionDetected callbacks and the sink trace; exhaustive motion patterns (every offset, the frame at the cap, min=0, max=min) for min,max<=3s x fps<=3, plus random scripts with realistic settings (3/20/9, 10/600/9).",
         "level_note": "Motion bits are the observed listener callbacks, so the oracle is decoupled from the detector.",
         "technique": "declarative trace oracle on monitor sinks + listener callbacks",
-        "jobs": [dict(FSM_JOB)],
+        "jobs": [dict(FSM_JOB, require=FSM_JOB["require"] + ["recordings_with_pre_trigger_write_fault", "pre_trigger_fault_in_a_later_recording"])],
     },
     "C04": {
         "title": "A recording starts iff motion persisted, the window is open and storage is OK",
@@ -96,7 +96,7 @@ PROPS = {
         "level_text": "Start-iff monitor over scripted gate outcomes (window via the real window.Window with an injected clock, disk check and file creation via the monitor sink) for all motion strings x every single refusal placement, random multi-refusal scripts, and a dedicated window-clock job (absolute windows incl. midnight wrap and exact boundary instants).",
         "level_note": "Sunrise/sunset-relative windows are exercised only through Active()'s boolean; the CPTVFileRecorder disk check is covered by the pipeline job.",
         "technique": "online start-iff monitor with scripted gates and injected window clock",
-        "jobs": [dict(FSM_JOB),
+        "jobs": [dict(FSM_JOB, require=FSM_JOB["require"] + ["long_refused_runs"]),
                  {"pkg": "motion", "test": "TestVerif_C04Window", "shards": (8, 16), "timeout": (300, 1800), "require": ["window_runs", "motion_frames_outside_window", "frames_at_exact_boundary", "windows_spanning_midnight", "recordings"]},
                  {"pkg": "recorder-main", "test": "TestVerif_C04Pipe", "shards": (6, 6), "timeout": (300, 900), "require": ["pipeline_gate_runs", "pipeline_motion_files"]},
                  {"pkg": "recorder-main", "test": "TestVerif_C04PipeRetry", "shards": (8, 16), "timeout": (300, 900), "require": ["pipeline_retry_runs"]},
@@ -109,9 +109,10 @@ PROPS = {
                 "Non-trivial = schedule with at least one cut or suppressed start; distinct by (config, timestamped base trace).",
         "assumptions": COMMON_ASSUME + ["virtual time only (injected ratelimit.Clock); tolerance = the property's 1% rate margin + 2 frames"],
         "level_text": "Offline checker over the timestamped trace on the wrapped recorder for seeded caller schedules (idle-then-burst, churn at the refill boundary, continuous writing for several buckets, one-frame recordings, clock advances from 0/1ns/one tick +-1ns to 40 days) and for the composition real MotionProcessor -> real ThrottledRecorder under continuous and random motion; the largest observed excess over B + 1.01 r dt is reported.",
-        "level_note": "main.go's wiring of the throttle (real clock) is checked one-sidedly by the pipeline job.",
-        "technique": "offline interval-bound checker on a timestamped event log (injected clock)",
+        "level_note": "main.go's wiring of the throttle (real clock) is checked one-sidedly by the pipeline job. The clock-step job keeps the clock the production constructor installs and rewrites only the wall part of its readings (what the kernel reports after NTP/date -s steps); its bound is evaluated on monotonic timestamps taken around every call (pre <= bucket reading <= post), so load can only loosen it.",
+        "technique": "offline interval-bound checker on a timestamped event log (injected clock; production clock with emulated wall-clock steps)",
         "jobs": [dict(TH_JOB),
+                 {"pkg": "throttle", "test": "TestVerif_C05ClockStep", "shards": (8, 16), "timeout": (300, 1800), "require": ["clock_step_runs", "clock_steps_forward", "clock_steps_backward", "runs_with_dry_bucket", "forwarded_writes"]},
                  {"pkg": "recorder-main", "test": "TestVerif_C05Pipe", "shards": (8, 16), "timeout": (600, 2400), "require": ["pipeline_runs", "frames_recorded_throttled", "throttled_files", "throttle_cut_files"]},
                  {"pkg": "throttle", "test": "TestVerif_ThrottleComposition", "shards": (16, 16), "timeout": (300, 2400), "require": ["composition_runs", "base_starts_checked", "mid_trigger_restarts", "base_start_failures", "runs_with_disk_low_windows"]}],
     },
@@ -143,7 +144,7 @@ PROPS = {
         "level_text": "Reference-model monitor in lock-step with the real detector over boundary-biased random streams and the full mode matrix; judged per frame on the boolean verdict (the changed-pixel count is internal).",
         "level_note": "Pixel/threshold boundary cases are targeted by the generator, not enumerated.",
         "technique": "reference-model runtime monitor (lock-step differential)",
-        "jobs": [{"pkg": "motion", "test": "TestVerif_C07", "shards": (16, 16), "timeout": (300, 2400), "require": ["frames", "motion_frames", "frames_at_count_boundary", "streams_via_processor_api", "streams_via_detect"]}],
+        "jobs": [{"pkg": "motion", "test": "TestVerif_C07", "shards": (16, 16), "timeout": (300, 2400), "require": ["frames", "motion_frames", "frames_at_count_boundary", "streams_via_processor_api", "streams_via_detect", "blinking_blob_streams"]}],
     },
     "C08": {
         "title": "Edge-border pixels and sub-threshold (cold) pixels never influence detection",
@@ -155,7 +156,7 @@ PROPS = {
         "level_text": "Paired-execution comparator over seeded stream pairs; any divergence in detection, recording boundaries, interior background or dynamic threshold is a violation.",
         "level_note": "edge-pixels = 0 makes the border variant vacuous (only the sub-threshold variant runs there).",
         "technique": "paired-execution comparator",
-        "jobs": [{"pkg": "motion", "test": "TestVerif_C08", "shards": (16, 16), "timeout": (300, 2400), "require": ["pairs_border", "pairs_sub-threshold", "motion_frames", "recordings", "pixels_varied"]},
+        "jobs": [{"pkg": "motion", "test": "TestVerif_C08", "shards": (16, 16), "timeout": (300, 2400), "require": ["pairs_border", "pairs_sub-threshold", "motion_frames", "recordings", "pixels_varied", "blinking_blob_pairs"]},
                  {"pkg": "recorder-main", "test": "TestVerif_C14Pipe", "race": True, "shards": (16, 16), "timeout": (600, 3000), "require": ["connections", "frames_verified_in_storage", "motion_files"]}],
     },
     "C09": {
@@ -176,7 +177,7 @@ PROPS = {
         "title": "Only complete recordings ever bear the .cptv name; crashes leave no debris",
         "level": "fault_enumeration",
         "rule": "Scenarios through the real handleConn + CPTVFileRecorder in a child process (test binary re-executed): S1 one motion recording, S2 two back-to-back, S3 throttle cut, S4 test recording overlapping a motion recording, "
-                "S5 constant recorder on, S6 connection dropped in mid-frame (Stop path), S7 'clear' in mid-recording, S8 test recording and motion recording starting on the same frame, S9 throttle cut and restart within one trigger, S10 every start failing while the header is written (quick: S1,S3,S4,S5,S6,S8,S10). "
+                "S5 constant recorder on, S6 connection dropped in mid-frame (Stop path), S7 'clear' in mid-recording, S8 test recording and motion recording starting on the same frame, S9 throttle cut and restart within one trigger, S10 every start failing while the header is written, S11 the temporary names of the next 100 ms already taken when the motion recording starts (quick: S1,S3,S4,S5,S6,S8,S10,S11). "
                 "An uncrashed run counts the hook hits H - the file recorder's own hooks (after create, after header, before/after each frame write, before Close, between Close and rename, after rename, abort path) and hook calls inserted by build overlay into a copy of go-cptv's file writer "
                 "(between its three file creations; in Close after flush, header patch, gzip copy, gzip flush/close, buffered flush, before/after closing and deleting the scratch file); then for EVERY n in 0..H the child SIGKILLs itself at hit n. "
                 "Oracles: I1 - every *.cptv decodes header to EOF with the stock reader, checked synchronously at every hook inside the child, by a free-running observer goroutine, and by the parent on the directory as found; "
